@@ -135,7 +135,7 @@ theorem set_sound (w : List (NHash × Val)) (s : MemStore) (k : NHash) (v : Val)
       · exact ⟨(k, v), List.mem_cons_self .., rfl, s.keyEq_refl k⟩
     | some f =>
       obtain ⟨k0, v0⟩ := f
-      have hk0 := (C04.keyEq_of_find s k _ hf).2
+      have hk0 := (MemStore.keyEq_of_find s k _ hf).2
       simp only [hf, List.mem_map] at hp
       obtain ⟨⟨k1, v1⟩, hm, heq⟩ := hp
       by_cases hc : s.keyEq k1 k = true
@@ -156,7 +156,7 @@ theorem set_sound (w : List (NHash × Val)) (s : MemStore) (k : NHash) (v : Val)
       · exact old p hp'
     | some f =>
       obtain ⟨k0, v0⟩ := f
-      have hk0 := (C04.keyEq_of_find s k _ hf).2
+      have hk0 := (MemStore.keyEq_of_find s k _ hf).2
       simp only [hf] at hp
       rcases List.mem_cons.mp hp with rfl | hp'
       · exact ⟨(k, v), List.mem_cons_self .., rfl, hk0⟩
